@@ -5,7 +5,7 @@ Import ListNotations.
 Open Scope string_scope.
 
 
-(* saml2/entity.py:Entity._parse_response (try/finally, f(.., **kwargs) and the logging-only test on the exception text rewritten by harness/c01.py:_Desugar), lines 1399-1535 *)
+(* saml2/entity.py:Entity._parse_response (try/finally, f(.., **kwargs) and the logging-only test on the exception text rewritten by harness/c01.py:_Desugar), lines 1404-1540 *)
 Definition src2_parse_response (endpoint : pyval -> pyval -> pyval -> pyval -> pyval) (mk_response : pyval -> pyval -> pyval -> pyval) (unravel : pyval -> pyval -> pyval -> pyval -> pyval) (loads : pyval -> pyval -> pyval -> pyval -> pyval) (verify : pyval -> pyval -> pyval) (v_self : pyval) (v_xmlstr : pyval) (v_response_cls : pyval) (v_service : pyval) (v_binding : pyval) (v_outstanding_certs : pyval) (v_kwargs : pyval) : pyval :=
   let v_response := PErr in
   let v_bindings := PErr in
